@@ -338,6 +338,104 @@ def run_cell(binary, sc, idx, root, netns):
     return res
 
 
+def _judge_cell(cid, tag, asan, sc, res, m, shapes):
+    """Verdict of one real-process run (shared by the engine and by --replay)."""
+    m["evaluations"] += 1
+    v = res.get("verdict")
+    desc = {k: sc[k] for k in ("piece_length", "files", "single", "tracker_faults")} | {k: sc[k] for k in ("tracker_delivery", "torrent_rel", "hostile_name") if k in sc}
+    desc["peers"] = [{k: p.get(k) for k in ("port", "host", "incoming", "chunk", "latency_ms", "choke_after_blocks", "disconnect_after_blocks", "mid_frame", "corrupt_permille", "noise_permille", "kind", "script", "connect_delay_ms", "handshake_delay_ms", "keepalive_every_s", "second_connection_from_own_port", "second_after_ms", "second_linger_ms") if p.get(k) is not None} | {"pieces": "".join("1" if b else "0" for b in p["have"])} for p in sc["peers"]]
+    wit = {"engine": tag, "scenario": desc, "scenario_full": sc if len(json.dumps(sc)) < 200000 else None, "result": {k: res.get(k) for k in ("verdict", "detail", "elapsed_s", "panics", "sanitizer", "piece_problems", "hostile", "closed_by_client", "conn_life", "outside_start_dir", "peak_rss_kb", "log_tail", "stdout_tail")}}
+    _count(m, "%s:%s" % (tag, v))
+    if res.get("sanitizer"):
+        _viol(m, "%s:%s:sanitizer-report" % (cid, tag), "AddressSanitizer report in the client: %s" % res["sanitizer"][:2], wit)
+        return
+    if res.get("piece_problems"):
+        _viol(m, "C01:%s:stored-piece-not-verified" % tag if cid == "C01" else "%s:%s:stored-piece-not-verified" % (cid, tag), "; ".join(res["piece_problems"]), wit)
+        return
+    if cid == "C04":
+        _count(m, "%s_runs_with_torrent_elsewhere" % tag.replace("-", "_"))
+        m["sets"].setdefault("torrent_locations", set()).add(sc.get("torrent_rel"))
+        if res.get("outside_start_dir"):
+            wit["scenario"]["torrent_rel"] = sc.get("torrent_rel")
+            wit["scenario"]["hostile_name"] = sc.get("hostile_name")
+            _viol(m, "C04:%s:written-outside-start-directory" % tag, "started in cwd/ with `get %s`; afterwards these files exist outside the start directory: %s" % (sc.get("torrent_rel"), res["outside_start_dir"]), wit)
+            return
+        if sc.get("hostile_name"):
+            _count(m, "%s_hostile_name_runs" % tag.replace("-", "_"))
+            if res.get("panics") or v == "client-died":
+                m["inconclusive"].append("%s: hostile name %r: %s %s" % (tag, sc["hostile_name"], v, res.get("panics")))
+            return
+    if cid == "C20":
+        bad = None
+        comp = res.get("complete_at_s")
+        for c in res.get("closed_by_client", []):
+            if 1 <= c.get("served_blocks", 0) < c.get("owed_blocks", 0) and c.get("s_since_our_last_message", 999) < 100 and (comp is None or c["at_s"] < comp - 3):
+                bad = ("C20:%s:live-connection-closed" % tag, "peer %s (sole holder of its pieces) had served %d of %d blocks, its last one %.1f s earlier, when the client hung up at t=%.1f s (download %s)" % (c["port"], c["served_blocks"], c["owed_blocks"], c["s_since_our_last_message"], c["at_s"], "complete at %.1f s" % comp if comp else "never completed"))
+        for l in res.get("conn_life", []):
+            if l.get("lived_s", 0) >= 135:
+                _count(m, "%s_connections_older_than_one_interval" % tag.replace("-", "_"))
+                if not any(105 <= t <= 135 for t in l.get("keepalives_at_s", [])):
+                    bad = bad or ("C20:%s:keepalive-emission" % tag, "connection to %s lived %.0f s; keep-alives from the client at %s" % (l["port"], l["lived_s"], l.get("keepalives_at_s")))
+        for h in res.get("hostile", []):
+            if h.get("kind") == "silent" and not h.get("error"):
+                _count(m, "%s_silent_connections_judged" % tag.replace("-", "_"))
+                ca = h.get("closed_after_s")
+                if ca is None or ca > 366:
+                    bad = bad or ("C20:%s:silent-connection-not-closed" % tag, "silent peer %s: closed after %s s (waited %s s)" % (h["port"], ca, h.get("waited_s")))
+                ka = h.get("keepalives_from_client_at_s", [])
+                life = ca if ca is not None else 380
+                for tick in (120, 240):
+                    if life > tick + 15 and not any(tick - 15 <= t <= tick + 15 for t in ka):
+                        bad = bad or ("C20:%s:keepalive-emission" % tag, "silent peer %s: connection lived %.0f s, keep-alives from the client at %s" % (h["port"], life, ka))
+        if bad:
+            _viol(m, bad[0], bad[1], wit)
+            return
+        _count(m, "%s_live_slow_connections_judged" % tag.replace("-", "_"), len(res.get("conn_life", [])))
+    if cid == "C06" and res.get("panics"):
+        _viol(m, "C06:%s:panic-in-client" % tag, "a task of the client panicked: %s" % res["panics"][:2], wit)
+        return
+    if cid == "C06" and v in ("complete", "stalled", "timeout"):
+        bad = None
+        for h in res.get("hostile", []):
+            _count(m, "%s_hostile_connections" % tag.replace("-", "_"))
+            if h.get("expect_close") and h.get("done") and not h.get("error"):
+                if h.get("closed_after_s") is None and h.get("closed_early_at_step") is None:
+                    bad = h
+                else:
+                    _count(m, "%s_malformed_frame_terminated" % tag.replace("-", "_"))
+                    m["sets"].setdefault("malformed_kinds_terminated", set()).add(h.get("kind"))
+        if bad:
+            wit["hostile"] = bad
+            _viol(m, "C06:%s:malformed-frame-not-terminated:%s" % (tag, bad.get("kind")), "peer %s sent a %s frame after a legal prefix; the client kept the connection open for %s s" % (bad.get("port"), bad.get("kind"), bad.get("waited_s")), wit)
+            return
+        rss = res.get("peak_rss_kb", 0)
+        if rss:
+            m["counters"]["max:%s_peak_rss_kb" % tag.replace("-", "_")] = max(m["counters"].get("max:%s_peak_rss_kb" % tag.replace("-", "_"), 0), rss)
+        if not asan and rss > 200_000:
+            _viol(m, "C06:%s:unbounded-buffering" % tag, "peak resident set of the client %d kB with peers sending at most a few hundred kB" % rss, wit)
+            return
+    if v == "complete":
+        if res.get("unexpected_files"):
+            _viol(m, "%s:%s:unexpected-output" % (cid, tag), "unexpected files %s" % res["unexpected_files"], wit)
+            return
+        if res.get("handshakes_bad"):
+            _viol(m, "%s:%s:bad-handshake-from-client" % (cid, tag), "client handshake with wrong protocol string/info-hash", wit)
+            return
+        _count(m, "%s_completed_identical" % tag.replace("-", "_"))
+        shapes.add(hashlib.sha1(json.dumps(desc, sort_keys=True).encode()).hexdigest()[:12])
+        if sum(1 for s in m["samples"] if isinstance(s, dict) and s.get("engine") == tag) < 1:
+            m["samples"].append({"engine": tag, "scenario": desc, "elapsed_s": res.get("elapsed_s"), "tracker_requests": res.get("tracker_requests"), "bytes_moved": res.get("bytes_moved")})
+    elif v == "client-died":
+        sig = "%s:%s:client-died" % (cid, tag)
+        _viol(m, sig, "the rdest process ended: %s; %s" % (res.get("detail"), res.get("panics")), wit)
+    elif v == "listed-peer-never-contacted":
+        _viol(m, "%s:%s:listed-peer-never-contacted" % (cid, tag), res.get("detail", ""), wit)
+    elif v == "stalled":
+        _viol(m, "%s:%s:stalled" % (cid, tag), res.get("detail", ""), wit)
+    else:
+        m["inconclusive"].append("%s: %s %s" % (tag, v, str(res.get("detail"))[:200]))
+
+
 def e2e(cid, tier, seed, jobs, scale, outdir, m, log, asan=False):
     """Real `rdest get` processes on real sockets, one network namespace each."""
     binary = build_binary(log, asan=asan)
@@ -385,100 +483,7 @@ def e2e(cid, tier, seed, jobs, scale, outdir, m, log, asan=False):
     shutil.rmtree(root, ignore_errors=True)
     shapes = set()
     for sc, res in zip(scs, results):
-        m["evaluations"] += 1
-        v = res.get("verdict")
-        desc = {k: sc[k] for k in ("piece_length", "files", "single", "tracker_faults")} | {k: sc[k] for k in ("tracker_delivery", "torrent_rel", "hostile_name") if k in sc}
-        desc["peers"] = [{k: p.get(k) for k in ("port", "host", "incoming", "chunk", "latency_ms", "choke_after_blocks", "disconnect_after_blocks", "mid_frame", "corrupt_permille", "noise_permille", "kind", "script", "connect_delay_ms", "handshake_delay_ms", "keepalive_every_s", "second_connection_from_own_port", "second_after_ms", "second_linger_ms") if p.get(k) is not None} | {"pieces": "".join("1" if b else "0" for b in p["have"])} for p in sc["peers"]]
-        wit = {"engine": tag, "scenario": desc, "result": {k: res.get(k) for k in ("verdict", "detail", "elapsed_s", "panics", "sanitizer", "piece_problems", "hostile", "closed_by_client", "conn_life", "outside_start_dir", "peak_rss_kb", "log_tail", "stdout_tail")}}
-        _count(m, "%s:%s" % (tag, v))
-        if res.get("sanitizer"):
-            _viol(m, "%s:%s:sanitizer-report" % (cid, tag), "AddressSanitizer report in the client: %s" % res["sanitizer"][:2], wit)
-            continue
-        if res.get("piece_problems"):
-            _viol(m, "C01:%s:stored-piece-not-verified" % tag if cid == "C01" else "%s:%s:stored-piece-not-verified" % (cid, tag), "; ".join(res["piece_problems"]), wit)
-            continue
-        if cid == "C04":
-            _count(m, "%s_runs_with_torrent_elsewhere" % tag.replace("-", "_"))
-            m["sets"].setdefault("torrent_locations", set()).add(sc.get("torrent_rel"))
-            if res.get("outside_start_dir"):
-                wit["scenario"]["torrent_rel"] = sc.get("torrent_rel")
-                wit["scenario"]["hostile_name"] = sc.get("hostile_name")
-                _viol(m, "C04:%s:written-outside-start-directory" % tag, "started in cwd/ with `get %s`; afterwards these files exist outside the start directory: %s" % (sc.get("torrent_rel"), res["outside_start_dir"]), wit)
-                continue
-            if sc.get("hostile_name"):
-                _count(m, "%s_hostile_name_runs" % tag.replace("-", "_"))
-                if res.get("panics") or v == "client-died":
-                    m["inconclusive"].append("%s: hostile name %r: %s %s" % (tag, sc["hostile_name"], v, res.get("panics")))
-                continue
-        if cid == "C20":
-            bad = None
-            comp = res.get("complete_at_s")
-            for c in res.get("closed_by_client", []):
-                if 1 <= c.get("served_blocks", 0) < c.get("owed_blocks", 0) and c.get("s_since_our_last_message", 999) < 100 and (comp is None or c["at_s"] < comp - 3):
-                    bad = ("C20:%s:live-connection-closed" % tag, "peer %s (sole holder of its pieces) had served %d of %d blocks, its last one %.1f s earlier, when the client hung up at t=%.1f s (download %s)" % (c["port"], c["served_blocks"], c["owed_blocks"], c["s_since_our_last_message"], c["at_s"], "complete at %.1f s" % comp if comp else "never completed"))
-            for l in res.get("conn_life", []):
-                if l.get("lived_s", 0) >= 135:
-                    _count(m, "%s_connections_older_than_one_interval" % tag.replace("-", "_"))
-                    if not any(105 <= t <= 135 for t in l.get("keepalives_at_s", [])):
-                        bad = bad or ("C20:%s:keepalive-emission" % tag, "connection to %s lived %.0f s; keep-alives from the client at %s" % (l["port"], l["lived_s"], l.get("keepalives_at_s")))
-            for h in res.get("hostile", []):
-                if h.get("kind") == "silent" and not h.get("error"):
-                    _count(m, "%s_silent_connections_judged" % tag.replace("-", "_"))
-                    ca = h.get("closed_after_s")
-                    if ca is None or ca > 366:
-                        bad = bad or ("C20:%s:silent-connection-not-closed" % tag, "silent peer %s: closed after %s s (waited %s s)" % (h["port"], ca, h.get("waited_s")))
-                    ka = h.get("keepalives_from_client_at_s", [])
-                    life = ca if ca is not None else 380
-                    for tick in (120, 240):
-                        if life > tick + 15 and not any(tick - 15 <= t <= tick + 15 for t in ka):
-                            bad = bad or ("C20:%s:keepalive-emission" % tag, "silent peer %s: connection lived %.0f s, keep-alives from the client at %s" % (h["port"], life, ka))
-            if bad:
-                _viol(m, bad[0], bad[1], wit)
-                continue
-            _count(m, "%s_live_slow_connections_judged" % tag.replace("-", "_"), len(res.get("conn_life", [])))
-        if cid == "C06" and res.get("panics"):
-            _viol(m, "C06:%s:panic-in-client" % tag, "a task of the client panicked: %s" % res["panics"][:2], wit)
-            continue
-        if cid == "C06" and v in ("complete", "stalled", "timeout"):
-            bad = None
-            for h in res.get("hostile", []):
-                _count(m, "%s_hostile_connections" % tag.replace("-", "_"))
-                if h.get("expect_close") and h.get("done") and not h.get("error"):
-                    if h.get("closed_after_s") is None and h.get("closed_early_at_step") is None:
-                        bad = h
-                    else:
-                        _count(m, "%s_malformed_frame_terminated" % tag.replace("-", "_"))
-                        m["sets"].setdefault("malformed_kinds_terminated", set()).add(h.get("kind"))
-            if bad:
-                wit["hostile"] = bad
-                _viol(m, "C06:%s:malformed-frame-not-terminated:%s" % (tag, bad.get("kind")), "peer %s sent a %s frame after a legal prefix; the client kept the connection open for %s s" % (bad.get("port"), bad.get("kind"), bad.get("waited_s")), wit)
-                continue
-            rss = res.get("peak_rss_kb", 0)
-            if rss:
-                m["counters"]["max:%s_peak_rss_kb" % tag.replace("-", "_")] = max(m["counters"].get("max:%s_peak_rss_kb" % tag.replace("-", "_"), 0), rss)
-            if not asan and rss > 200_000:
-                _viol(m, "C06:%s:unbounded-buffering" % tag, "peak resident set of the client %d kB with peers sending at most a few hundred kB" % rss, wit)
-                continue
-        if v == "complete":
-            if res.get("unexpected_files"):
-                _viol(m, "%s:%s:unexpected-output" % (cid, tag), "unexpected files %s" % res["unexpected_files"], wit)
-                continue
-            if res.get("handshakes_bad"):
-                _viol(m, "%s:%s:bad-handshake-from-client" % (cid, tag), "client handshake with wrong protocol string/info-hash", wit)
-                continue
-            _count(m, "%s_completed_identical" % tag.replace("-", "_"))
-            shapes.add(hashlib.sha1(json.dumps(desc, sort_keys=True).encode()).hexdigest()[:12])
-            if sum(1 for s in m["samples"] if isinstance(s, dict) and s.get("engine") == tag) < 1:
-                m["samples"].append({"engine": tag, "scenario": desc, "elapsed_s": res.get("elapsed_s"), "tracker_requests": res.get("tracker_requests"), "bytes_moved": res.get("bytes_moved")})
-        elif v == "client-died":
-            sig = "%s:%s:client-died" % (cid, tag)
-            _viol(m, sig, "the rdest process ended: %s; %s" % (res.get("detail"), res.get("panics")), wit)
-        elif v == "listed-peer-never-contacted":
-            _viol(m, "%s:%s:listed-peer-never-contacted" % (cid, tag), res.get("detail", ""), wit)
-        elif v == "stalled":
-            _viol(m, "%s:%s:stalled" % (cid, tag), res.get("detail", ""), wit)
-        else:
-            m["inconclusive"].append("%s: %s %s" % (tag, v, str(res.get("detail"))[:200]))
+        _judge_cell(cid, tag, asan, sc, res, m, shapes)
     m["distinct"] = m.get("distinct", 0) + len(shapes)
     m["sets"].setdefault("engines", set()).add("%s (%d real-process runs, network namespaces: %s, %.0fs)" % (tag, len(scs), netns, time.time() - t0))
     need = n * 0.5
@@ -566,3 +571,28 @@ def miri(cid, tier, seed, jobs, scale, outdir, m, log):
         m["inconclusive"] += ["miri: " + x for x in d["inconclusive"]]
     _count(m, "miri_evaluations", n_eval)
     m["sets"].setdefault("engines", set()).add("miri (%d interpreted evaluations in %d shards, %.0fs)" % (n_eval, shards, time.time() - t0))
+
+
+def replay_e2e(cid, witness, sig, log=print, attempts=8):
+    """Run the recorded real-process scenario again `attempts` times; how often does `sig` recur?"""
+    sc = (witness or {}).get("scenario_full")
+    tag = (witness or {}).get("engine", "e2e")
+    if not sc:
+        return None
+    asan = tag == "e2e-asan"
+    binary = build_binary(log, asan=asan)
+    if binary is None:
+        return None
+    netns = have_netns()
+    root = os.path.join(os.environ.get("VERIF_SCRATCH", "/dev/shm" if os.path.isdir("/dev/shm") else "/tmp"), "vh-replay-%d" % os.getpid())
+    os.makedirs(root, exist_ok=True)
+    with ThreadPoolExecutor(max_workers=attempts if netns else 1) as ex:
+        results = list(ex.map(lambda k: run_cell(binary, sc, k, root, netns), range(attempts)))
+    shutil.rmtree(root, ignore_errors=True)
+    hits = 0
+    for res in results:
+        m = {"evaluations": 0, "counters": {}, "samples": [], "violations": [], "inconclusive": [], "sets": {}, "minimums": {}}
+        _judge_cell(cid, tag, asan, sc, res, m, set())
+        if any(v["signature"] == sig for v in m["violations"]):
+            hits += 1
+    return hits, attempts
